@@ -193,6 +193,28 @@ def range_stratum(ctx, ws, n):
         ctx.case(("c12-range", rule, text), found, stratum="range-dependent/" + ("found" if found else "not found"))
 
 
+def empty_input_stratum(ctx, ws):
+    """Inputs without a single instruction (an objdump banner only, an empty file, a data-only object) x rules every element of which
+    is optional (they match the empty sequence) and rules that need an instruction: the eight ways of asking agree here too."""
+    from jv import elf
+    inputs = [("banner-only listing", ws.write("e1.s", "\nx.o:     file format elf64-x86-64\n\n\nDisassembly of section .text:\n\n0000000000000000 <f>:\n"), False),
+              ("empty listing", ws.write("e2.s", ""), False),
+              ("data-only object", ws.write("e3.bin", elf.build([elf.Section(".data", bytes(range(64)), 0x600000, False)], 64, None)), True)]
+    rules = [[{"nop": {"times": {"min": 0, "max": 1}}}], [{"$or": ["int3", "nop"], "times": {"min": 0, "max": 3}}], [{"nop": {"times": {"min": 0, "max": 2}}}, {"ret": {"times": {"min": 0, "max": 1}}}],
+             ["nop"], [{"$not": ["nop"]}]]
+    for what, path, binary in inputs:
+        for k, pat in enumerate(rules):
+            rule = real.dump_rule({"pattern": pat})
+            rp = ws.write("empty_rule.yaml", rule)
+            pf = [False, True, "flip"][k % 3]
+            res, ev = eight_modes(ctx, ws, rp, path, binary=binary, prepare_first=pf)
+            case = {"rule": rule, "desc": "empty-input", "empty_input": what, "prepare_first": pf}
+            check_relations(ctx, case, res, ev)
+            ctx.event("mode_sets_on_inputs_without_instructions")
+            found = any(r[0] == "ok" and bool(r[1]) for r in res.values())
+            ctx.case(("c12-empty", rule, what), True, stratum="input without instructions/" + ("found" if found else "not found"))
+
+
 def run_shard(ctx):
     install()
     for m in REC.missing:
@@ -202,6 +224,8 @@ def run_shard(ctx):
     d.loop(800, 80000)
     binary_stratum(ctx, d.ws, ctx.share(64, 6000))
     range_stratum(ctx, d.ws, ctx.share(48, 3000))
+    if ctx.shard == 2 % ctx.nshards:
+        empty_input_stratum(ctx, d.ws)
     # long listings: first-match must be the head of all-matches also when the first occurrence lies deep in the listing
     from jv.props import c11
     c11.long_listing_stratum(ctx, d.ws, ctx.share(16, 300))
@@ -218,6 +242,8 @@ def replay(ctx, case):
     if case.get("long_variable"):
         from jv.props import c11
         return c11.replay_long_variable(ctx, case)
+    if case.get("empty_input"):
+        return empty_input_stratum(ctx, ws)
     if case.get("range_case"):
         res, ev = eight_modes(ctx, ws, ws.write("range_rule.yaml", case["rule"]), ws.write("range.s", case["listing"]), prepare_first=case.get("prepare_first") or False)
         check_relations(ctx, case, res, ev)
